@@ -356,6 +356,48 @@ def gen_layered(rng, cons_prob=0.0):
     return case
 
 
+def gen_flat_cons(rng):
+    """flat design spaces with two choice constraints: a root deriving 4-5 subsystems with one permanent choice each; a
+    LINKED constraint over the first 2-3 (all but the first become forced and are not declared as design variables), and a
+    PERMUTATION/UNORDERED constraint over two later ones (so that vectors inside the declared space can be infeasible)"""
+    nid = [0]
+
+    def new():
+        nid[0] += 1
+        return nid[0] - 1
+    root = new()
+    n_link = rng.choice([2, 2, 3])
+    k_link = rng.choice([2, 3])
+    k_perm = rng.choice([2, 3, 3, 4])
+    counts = [k_link] * n_link + [k_perm] * 2 + ([rng.choice([2, 3])] if rng.random() < 0.4 else [])
+    pos = list(range(len(counts)))
+    if rng.random() < 0.5:
+        # the free choice or the constrained pairs in another declaration order
+        rng.shuffle(pos)
+    groups = []
+    for _ in counts:
+        sysn = new()
+        groups.append([sysn, None])
+    edges = [[root, g[0]] for g in groups]
+    for k, cnt in enumerate(counts):
+        groups[k][1] = [new() for _ in range(cnt)]
+    cid = nid[0]
+    sel, ids = [], {}
+    for k in pos:
+        ids[k] = cid
+        sel.append({'id': cid, 'origin': groups[k][0], 'options': groups[k][1]})
+        cid += 1
+    cons = [{'type': 'linked', 'choices': sorted(ids[k] for k in range(n_link))},
+            {'type': rng.choice(['permutation', 'permutation', 'unordered']),
+             'choices': sorted(ids[k] for k in (n_link, n_link + 1))}]
+    if rng.random() < 0.3:
+        cons.reverse()
+    case = {'n': nid[0], 'edges': edges, 'sel': sel, 'start': [root], 'incompat': [], 'cons': cons}
+    if rng.random() < 0.5:
+        case['order'] = rng.randrange(1 << 30)
+    return case
+
+
 def gen_diamond(rng):
     """G-diamond: fan-out / fan-in derivations below option nodes, some of whose members have a second deriver"""
     nid = [0]
